@@ -165,6 +165,10 @@ var forms = []form{
 	{name: "singleton-by-value-only", main: "$S = { n: int, s: str };\n" + m(`println($S.n, $S.s); $S.n = $S.n + 5; println($S.n + 1);`), sing: map[string]hs.Value{"$S": sObj(4, "x")}},
 	{name: "singleton-by-value-only-zero", main: "$Counter = { start: int, step: int };\nfn bump() { $Counter.start += 2; }\n" + m(`println($Counter.start, $Counter.step); bump(); bump(); println($Counter.start);`)},
 	{name: "singleton-by-value-and-unused-one", main: "$A = { n: int, s: str };\n$Unused = { k: int };\n" + m(`println($A.n);`), sing: map[string]hs.Value{"$A": sObj(2, "a")}},
+	// type imports from a module the HOST implements
+	{name: "import-type-from-host-module", main: "import type HttpResponse from net;\n" + m(`println(1);`)},
+	{name: "import-type-from-host-module-braced", main: "import { type HttpResponse } from net;\n" + m(`println(2);`)},
+	{name: "import-type-from-host-module-used", main: "import type HttpResponse from net;\nfn keep(r: ?HttpResponse) -> bool { r.is_none() }\n" + m(`let n: ?HttpResponse = none; println(keep(n));`)},
 	{name: "singleton-param", main: "$S = { n: int, s: str };\nfn f(sg: $S, k: int) -> int { sg.n + k }\nfn g(sg: $S) -> str { sg.s }\n" + m(`println(f(1), g());`), sing: map[string]hs.Value{"$S": sObj(41, "hi")}},
 	{name: "singleton-zero", main: "$S = { n: int, s: str };\nfn f(sg: $S) -> int { sg.n }\n" + m(`println(f());`)},
 	{name: "singleton-two", main: "$A = { n: int, s: str };\n$B = { n: int, s: str };\nfn f(a: $A, b: $B, k: int) -> int { a.n * b.n + k }\n" + m(`println(f(1));`), sing: map[string]hs.Value{"$A": sObj(2, "a"), "$B": sObj(3, "b")}},
